@@ -97,7 +97,7 @@ def call_builtin(I, name, args, kwargs, fr):
                     I.raise_builtin('ValueError', 'invalid literal for int()')
             return I.call_spec('dec_val', v)
         if isinstance(v, VFloat):
-            return VInt(z3.ToInt(v.t))
+            return VInt(p.fresh_int('int_of_float'))         # rounding not modelled: unconstrained integer
         raise OutOfSubset('int(%r)' % (v,))
     if name == 'bool':
         return VBool(I.truth(args[0]))
@@ -132,6 +132,8 @@ def call_builtin(I, name, args, kwargs, fr):
             t = I.as_int(x)
             r = z3.If(t > r, t, r) if name == 'max' else z3.If(t < r, t, r)
         return VInt(r)
+    if name == 'abs' and isinstance(args[0], VFloat):
+        return VFloat(z3.Real(p.fresh_name('fabs')))
     if name == 'abs':
         t = I.as_int(args[0])
         return VInt(z3.If(t < 0, -t, t))
@@ -219,7 +221,7 @@ def call_builtin(I, name, args, kwargs, fr):
         v = args[0]
         if isinstance(v, VStr) and z3.is_string_value(v.t):
             s = v.t.as_string()
-            return VConst('pyconst', float(s))
+            return VConst('pyfloat', float(s))
         if isinstance(v, VFloat):
             return v
         if isinstance(v, (VInt, VBool)):
@@ -310,6 +312,11 @@ def call_extern(I, ref, args, kwargs, fr):
         raise OutOfSubset('unhexlify(%r)' % (v,))
     if name in BuiltinClass.HIER:
         return VObj(BuiltinClass(name), {'args': VTuple(args)})
+    if name == 'math.isnan':
+        return VBool(I.path.fresh_bool('isnan'))            # IEEE-754 classification: not modelled (floats are opaque)
+    if name == 'math.frexp':
+        # (mantissa, exponent): floating point is outside this family -- both results are unconstrained
+        return VTuple([VFloat(z3.Real(I.path.fresh_name('mant'))), VInt(I.path.fresh_int('exp'))])
     if name == 'copy.copy' or name == 'copy':
         v = args[0]
         if isinstance(v, VObj):
